@@ -91,12 +91,24 @@ def scratch_view(rm):
     return _scratch_memo[key]
 
 
+def eval_all(w):
+    """Evaluate every cells of every space (results ignored): bound functions and namespaces get built."""
+    for sp in list(w.m.spaces.values()):
+        for c in list(sp.cells.values()):
+            observe(lambda: c())
+
+
 def run_history(root, hist, depth_ops=None):
     w = StructWorld(root)
     case = {"root": root, "history": hist}
     obs = []
-    for op in hist:
+    warm = bool(root.get("warm"))
+    if warm:
+        eval_all(w)         # every cells evaluated before the edits and between them
+    for i, op in enumerate(hist):
         obs.append(w.apply(op))
+        if warm and i < len(hist) - 1:
+            eval_all(w)
     info = {"rm": w.rm, "rejected": obs and obs[-1][0] != "ok"}
     if info["rejected"]:
         # rejected although the reference deems it well-formed: not C03's business unless state changed
@@ -174,6 +186,13 @@ def roots(tier):
         for xs in subsets:
             for ys in ysets:
                 out.append({"bases": bases, "x": xs, "y": ys})
+    # warm variants (all cells evaluated before and between the edits): roots in which a name is defined in
+    # two or more spaces, so that a derived member can change its origin
+    for bases in dags:
+        for xs in subsets:
+            if len(xs) >= 2:
+                # y is defined everywhere so that every derived x evaluates to a value naming its origin
+                out.append({"bases": bases, "x": xs, "y": list(NAMES3), "warm": True})
     # deeper exploration of reference roots with a restricted alphabet (reference / base edits)
     for bases in dags:
         for ys in subsets:
@@ -193,6 +212,8 @@ def depth_for(root, tier):
     if root.get("mode") == "wide":
         return 3 if tier == "quick" else 4
     cells_only = not root["y"]
+    if root.get("warm"):
+        return 1 if tier == "quick" else 2
     if tier == "quick":
         return 2 if cells_only and len(root["x"]) <= 1 else 1
     return 3 if cells_only else 2
@@ -226,6 +247,8 @@ def shrink_candidates(case):
             nb = dict(r["bases"])
             nb[s] = bs[:i] + bs[i + 1:]
             yield {"root": dict(r, bases=nb), "history": h}
+    if r.get("warm"):
+        yield {"root": {k: v for k, v in r.items() if k != "warm"}, "history": h}
 
 
 def script(case):
@@ -241,7 +264,14 @@ def script(case):
     for s in topo(r["bases"]):
         if r["bases"][s]:
             L.append("m.%s.add_bases(%s)" % (s, ", ".join("m." + b for b in r["bases"][s])))
-    L += [O.op_to_python(op) for op in case["history"]]
+    ev = "[c() for s in m.spaces.values() for c in s.cells.values()]   # evaluate everything (errors ignored)"
+    ev = "for s in list(m.spaces.values()):\n    for c in list(s.cells.values()):\n        try: c()\n        except Exception: pass"
+    if r.get("warm"):
+        L.append(ev)
+    for i, op in enumerate(case["history"]):
+        L.append(O.op_to_python(op))
+        if r.get("warm") and i < len(case["history"]) - 1:
+            L.append(ev)
     L.append("for s in m.spaces.values():\n    print(s.name, [b.name for b in s.bases], "
              "{n: (c.formula.source, c._is_derived()) for n, c in s.cells.items()}, dict(s._own_refs))")
     return "\n".join(L)
